@@ -31,9 +31,9 @@ from props.c01 import _dims, _tensor, _canon, _q, _mat, _cfg, _cut, _rand_seq, _
 IMPORTS = "From PV Require Import C01.Obs C01.Spec C01.Model C02.Spec C02.Model.\n"
 TOL = Fraction(1, 20000)  # 5e-5 absolute on loss values (float32 pipeline, |values| <= ~20)
 WBITS = 24
-THEOREMS = ["c02_cost_rows_are_c01_rows", "c02_mistakes_invariant", "c02_error_rate_optimal_alignment",
-            "c02_error_rate_within_min_max", "c02_error_rate_uniform_is_levenshtein", "c02_error_rate_norm",
-            "c02_prefix_error_rates_correct", "c02_er_okb_iff", "c02_mer_loss_formula"]
+THEOREMS = ["c02_cost_rows_are_c01_rows", "c02_mistakes_invariant", "c02_mistakes_freeze",
+            "c02_error_rate_optimal_alignment", "c02_error_rate_within_min_max", "c02_error_rate_uniform_is_levenshtein",
+            "c02_error_rate_norm", "c02_prefix_error_rates_correct", "c02_mer_loss_formula", "c02_mer_er_allowed"]
 STR_APIS = ("er", "prefix")
 
 # ------------------------------------------------------------------------------------------
